@@ -11,6 +11,7 @@
      fits p op            the request fits p, in unbounded arithmetic (no wrap-around)
      op_wf op             the alignment named by the request is a power of two (align_of always is) *)
 From VM Require Import Prelude.MachInt Prelude.Outcome Impl.Volatile Spec.C01 Suite.C01 Proofs.C01.
+From VM Require Impl.Dirty Impl.VolMem Proofs.C05 Proofs.LinkGeometry.
 
 (* the implementation model satisfies the executable spec checker on every well-formed case:
    any root, any number of requests of any kind with any arguments, both build profiles *)
@@ -133,3 +134,64 @@ Print Assumptions C01_ptr_arith_defined.
 Print Assumptions C01_guest_get_slice.
 Print Assumptions C01_guest_get_host_address.
 Print Assumptions C01_guest_unmapped.
+
+(* ---------------------------------------------------------------------------------------------
+   LINK to C05/C16 and C04 (Proofs/LinkGeometry.v).  Impl/Dirty.v and Impl/VolMem.v re-code the
+   accessor geometry (region-relative offsets / heap indices).  It agrees with the transcription
+   above: [to_acc hb a] places a Dirty.v accessor (a_off, a_len, a_kind) at host base hb,
+   [to_dop k d] is the request a Dirty.v derivation step stands for, [to_ops] the request list of
+   a chain, [vm_acc hb s] places a VolMem.v slice. *)
+
+(* Dirty.derive answers Some a' exactly when the transcribed code answers Ok with a' placed at hb
+   (both build profiles; every request kind, incl. the ones that do not apply to the accessor) *)
+Theorem C01_dirty_geometry_agrees : forall m hb a d,
+  Proofs.C05.kind_ok a -> acc_valid (LinkGeometry.to_acc hb a) ->
+  (forall a', Dirty.derive a d = Some a' ->
+     derive m (LinkGeometry.to_acc hb a) (LinkGeometry.to_dop (Dirty.a_kind a) d) = Val (Ok (LinkGeometry.to_acc hb a'))) /\
+  (forall c, derive m (LinkGeometry.to_acc hb a) (LinkGeometry.to_dop (Dirty.a_kind a) d) = Val (Ok c) ->
+     exists a', Dirty.derive a d = Some a' /\ LinkGeometry.to_acc hb a' = c).
+Proof. exact LinkGeometry.derive_agree. Qed.
+
+(* ... for derivation chains of any depth *)
+Theorem C01_dirty_chain_agrees : forall m hb ds a a',
+  Proofs.C05.kind_ok a -> acc_valid (LinkGeometry.to_acc hb a) ->
+  Dirty.derive_chain a ds = Some a' ->
+  derive_chain m (LinkGeometry.to_acc hb a) (LinkGeometry.to_ops a ds) = Val (Ok (LinkGeometry.to_acc hb a')).
+Proof. exact LinkGeometry.chain_agree. Qed.
+
+(* containment transferred (through C01_chain_contained, not re-proved arithmetically): the
+   accessor a C05/C16 operation uses after ANY derivation chain from a region's root slice
+   designates only host bytes of that region, for a region that is a valid allocation at hb *)
+Theorem C01_contained_transfers_to_dirty : forall hb (r : Dirty.region) ds a,
+  hb + Dirty.r_size r < W64 -> Dirty.r_size r <= ISZ_MAX ->
+  Dirty.derive_chain (Dirty.root r) ds = Some a ->
+  acc_base (LinkGeometry.to_acc hb a) = hb + Dirty.a_off a /\ acc_len (LinkGeometry.to_acc hb a) = Dirty.a_len a /\
+  hb <= hb + Dirty.a_off a /\ hb + Dirty.a_off a + Dirty.a_len a <= hb + Dirty.r_size r /\
+  acc_valid (LinkGeometry.to_acc hb a).
+Proof. exact LinkGeometry.chain_contained_transfer. Qed.
+
+(* VolMem.v's heap-index slices: subslice / get_slice and offset agree with the transcription *)
+Theorem C01_volmem_geometry_agrees : forall m hb s,
+  acc_valid (ASlice (LinkGeometry.vm_acc hb s)) ->
+  (forall o c, match VolMem.vs_subslice s o c with
+     | VolMem.Ok s' => vs_subslice m (LinkGeometry.vm_acc hb s) o c = Val (Ok (LinkGeometry.vm_acc hb s'))
+     | VolMem.Err _ => exists e, vs_subslice m (LinkGeometry.vm_acc hb s) o c = Val (Err e) end) /\
+  (forall c, match VolMem.vs_offset hb s c with
+     | VolMem.Ok s' => vs_offset m (LinkGeometry.vm_acc hb s) c = Val (Ok (LinkGeometry.vm_acc hb s'))
+     | VolMem.Err _ => exists e, vs_offset m (LinkGeometry.vm_acc hb s) c = Val (Err e) end).
+Proof. exact LinkGeometry.volmem_agree. Qed.
+
+Example C01_link_nonvacuous :
+  let r := {| Dirty.r_start := 0; Dirty.r_size := 64; Dirty.r_ps := 16; Dirty.r_tracked := true; Dirty.r_dirty := [] |} in
+  let ds := [Dirty.DSub 8 40; Dirty.DGetArr 4 4 6; Dirty.DRefAt 5; Dirty.DToSlice] in
+  exists a, Dirty.derive_chain (Dirty.root r) ds = Some a /\ Dirty.a_off a = 32 /\ Dirty.a_len a = 4 /\
+  LinkGeometry.to_ops (Dirty.root r) ds =
+    [DSubslice 8 40; DGetArrayRef (LinkGeometry.ety_of 4) 4 6; DRefAt 5; DRefToSlice] /\
+  derive_chain Debug (LinkGeometry.to_acc 4096 (Dirty.root r)) (LinkGeometry.to_ops (Dirty.root r) ds) =
+    Val (Ok (ASlice (VS 4128 4))).
+Proof. cbv zeta. eexists. split; [vm_compute; reflexivity|]. vm_compute. repeat split. Qed.
+
+Print Assumptions C01_dirty_geometry_agrees.
+Print Assumptions C01_dirty_chain_agrees.
+Print Assumptions C01_contained_transfers_to_dirty.
+Print Assumptions C01_volmem_geometry_agrees.
